@@ -41,7 +41,7 @@ m = {
     "hooks": {
         "guard": "cargo feature `verif` (per hooked crate), harness modules are #[cfg(all(test, feature = \"verif\"))]",
         "enable": "cargo test --offline --lib --no-run -p <hooked crates> --features <crate>/verif,... (harness/common.py:cargo_build)",
-        "baseline_off_cmd": "cd /repo && cargo nextest run --workspace --no-fail-fast --offline || cargo test --workspace --no-fail-fast --offline",
+        "baseline_off_cmd": "cd /repo && cargo nextest run --workspace --no-fail-fast --tool-config-file pb:/w/lib/nextest.toml --profile pb --test-threads 8 --offline",
         "source_commits": hooks_commits,
         "add_only": True,
     },
@@ -52,7 +52,7 @@ m = {
     }],
     "checks": checks,
     "not_applicable": na,
-    "notes": "See DESIGN.md. known_findings.json lists recorded findings and fixes.",
+    "notes": "See DESIGN.md (section 8 = build record: findings, seeded changes and which check catches which, trusted base). known_findings.json lists recorded findings (known) and repaired defects (fixed: 9 fix: commits in /repo). Baseline with the guard off was re-run after all fix commits with the command in hooks.baseline_off_cmd on a quiet machine: 797 passed, the 4 failures are tests BASELINE.json lists as flaky/always_fail. Under plain single-process `cargo test` three sequencer tests (*_failed_ibc_relay_included_in_block) are order-dependent on the pinned tree already (global eyre hook); they pass under nextest and alone.",
 }
 json.dump(m, open(os.path.join(V, "MANIFEST.json"), "w"), indent=1)
 print("claimed:", [c["property_id"] for c in checks])
